@@ -87,25 +87,70 @@ theorem transformCandAnnot_spec (nS m : Nat) (unl : List (List Bool)) (cand : Ca
       · simp [h, this]
       · simp [h, this, List.getD_eq_getElem?_getD, List.getElem?_eq_none (show M.length ≤ i by omega)]
 
-/-- **Termination of `_n_to_assign_annotators`**: if the chosen samples together have at least
-`batch_size` available annotators, the `while` loop exits after at most `Σ nmax` passes with
-`Σ annot_per_sample ≥ batch_size`, never above the available number, never below the initial
-request `min(nmax, pref)`, and equal to it when that already fills the batch. -/
-theorem nToAssign_terminates (fuel b : Nat) (nmax pref : List Nat) (hlen : nmax.length = pref.length)
-    (hb : b ≤ nmax.sum) (hf : nmax.sum ≤ fuel) :
-    ∃ r, nToAssign fuel b nmax pref = some r ∧ b ≤ r.sum ∧ LeL r nmax ∧ LeL (assignInit nmax pref) r ∧
-      (b ≤ (assignInit nmax pref).sum → r = assignInit nmax pref) :=
-  assignIter_some fuel b nmax _ (assignInit_le nmax pref hlen) hb (by omega)
+/-- **The batch size is clipped to the number of available pairs**: the `batch_size` the strategies work
+with is `min(requested, #True entries of the availability mask)`, and by `transformCandAnnot_spec` the
+`True` entries are exactly the available pairs (annotator index arrays are unique and in range after
+`check_indices`). -/
+theorem batch_clipped_to_available_pairs (nS m : Nat) (unl : List (List Bool)) (cand : Cand) (annot : Annot)
+    (ha : ∀ a, annot = .idx a → a.Nodup ∧ ∀ x ∈ a, x < m) (bReq : Nat) :
+    clipBatch bReq (nCandidatePairs nS m unl cand annot) =
+      min bReq (countTrue (transformCandAnnot nS m unl cand annot).2) := by
+  rw [clipBatch_eq_min, nCandidatePairs_eq_countTrue nS m unl cand annot ha]
 
-/-- **Divergence**: if the chosen samples have fewer than `batch_size` available annotators in
-total, the loop condition holds after every number of passes: the Python loop never exits. -/
-theorem nToAssign_diverges (b : Nat) (nmax pref : List Nat) (h : nmax.sum < b) :
-    ∀ fuel, nToAssign fuel b nmax pref = none :=
-  fun fuel => assignIter_none fuel b nmax _ h (assignInit_sum_le nmax pref)
+/-- **Termination of `_n_to_assign_annotators`** (code after repair 6c5fda89), unconditionally: for
+every batch size, every availability counts `nmax` of the chosen samples and every preference vector
+the `while` loop exits after at most `Σ nmax` passes.  The result is never above the available number,
+never below the initial request `min(nmax, pref)`, equal to it when that already fills the batch, and
+either fills the batch (`Σ r ≥ batch_size`) or is saturated (`r = nmax`). -/
+theorem nToAssign_terminates (fuel b : Nat) (nmax pref : List Nat) (hlen : nmax.length = pref.length)
+    (hf : nmax.sum ≤ fuel) :
+    ∃ r, nToAssign fuel b nmax pref = some r ∧ (b ≤ r.sum ∨ r = nmax) ∧ LeL r nmax ∧
+      LeL (assignInit nmax pref) r ∧ (b ≤ (assignInit nmax pref).sum → r = assignInit nmax pref) :=
+  assignIter_some fuel b nmax _ (assignInit_le nmax pref hlen) (by omega)
+
+/-- If the chosen samples together have at least `batch_size` available annotators the result fills
+the batch: `Σ annot_per_sample ≥ batch_size`. -/
+theorem nToAssign_fills (fuel b : Nat) (nmax pref : List Nat) (hlen : nmax.length = pref.length)
+    (hb : b ≤ nmax.sum) (hf : nmax.sum ≤ fuel) :
+    ∃ r, nToAssign fuel b nmax pref = some r ∧ b ≤ r.sum := by
+  obtain ⟨r, h, h1, -⟩ := nToAssign_terminates fuel b nmax pref hlen hf
+  refine ⟨r, h, ?_⟩
+  rcases h1 with h1 | h1
+  · exact h1
+  · rw [h1]; exact hb
+
+/-- **Saturation**: if the chosen samples have fewer than `batch_size` available annotators in total
+(only possible when `annotators` is a Boolean matrix with all-`False` rows that the inner strategy
+selects), every chosen sample is assigned all its available annotators, `r = nmax_chosen`; the
+remaining pairs of the batch are then taken from the best other samples by the batch loop (each
+sample pointer position serves at least one step). -/
+theorem nToAssign_saturated (fuel b : Nat) (nmax pref : List Nat) (hlen : nmax.length = pref.length)
+    (hb : nmax.sum < b) (hf : nmax.sum ≤ fuel) : nToAssign fuel b nmax pref = some nmax := by
+  obtain ⟨r, h, h1, h2, -⟩ := nToAssign_terminates fuel b nmax pref hlen hf
+  rcases h1 with h1 | h1
+  · have := LeL.sum_le h2; omega
+  · rw [h, h1]
+
+namespace Regressions
+open Ska.MultiAnnot.Regressions
+
+/-- **Divergence of the loop before repair 6c5fda89** (`while n_pairs < batch_size:` without the
+saturation test): if the chosen samples have fewer than `batch_size` available annotators in total,
+the old loop condition holds after every number of passes — the Python loop never exited. -/
+theorem nToAssignOld_diverges (b : Nat) (nmax pref : List Nat) (h : nmax.sum < b) :
+    ∀ fuel, nToAssignOld fuel b nmax pref = none :=
+  fun fuel => assignIterOld_none fuel b nmax _ h (assignInit_sum_le nmax pref)
 
 /-- Witness: one chosen sample without any available annotator, `batch_size = 1`. -/
-theorem nToAssign_diverges_witness : ∀ fuel, nToAssign fuel 1 [0] [1] = none :=
-  nToAssign_diverges 1 [0] [1] (by decide)
+theorem nToAssignOld_diverges_witness : ∀ fuel, nToAssignOld fuel 1 [0] [1] = none :=
+  nToAssignOld_diverges 1 [0] [1] (by decide)
+
+/-- the repaired loop exits on the same input, saturated -/
+theorem nToAssign_repaired_witness : ∀ fuel, nToAssign fuel 1 [0] [1] = some [0] := by
+  intro fuel
+  cases fuel <;> simp [nToAssign, assignIter, assignInit, canGrow, ltB]
+
+end Regressions
 
 /-- The precondition holds whenever every chosen sample has an available annotator and the batch is
 not larger than the number of chosen samples (always the case for `candidates`/`annotators` given as
@@ -122,23 +167,14 @@ theorem nToAssign_precondition_holds (b : Nat) (nmax : List Nat) (h1 : ∀ x ∈
       simp only [List.length_cons, List.sum_cons]; omega
   omega
 
-section W
-variable {α : Type} [LT α] [DecidableLT α] [Add α] [OfNat α 1]
-variable {β : Type} [LT β] [DecidableLT β] [OfNat β 0]
-
-/-- The whole query diverges on an availability matrix with an all-`False` row that the inner
-strategy selects (`A = [[F,F],[T,T]]`, `batch_size = 1`, inner pick = sample 0), for every fuel, every
-utilities and every noise: the model of the current code returns `nonTermination`. -/
-theorem queryAnnotators_diverges_witness (ninf : α) (cast : Nat → α) (fuel : Nat)
-    (candRows : List (List (Option α))) (au : List α) (noises : List (List β)) :
-    queryAnnotators ninf cast fuel 2 1 [[false, false], [true, true]] candRows [0] au [1] noises =
-      .error .nonTermination := by
-  unfold queryAnnotators
-  have : nToAssign fuel 1 ([0].map (fun s => countRow ([[false, false], [true, true]].getD s []))) [1] = none :=
-    nToAssign_diverges_witness fuel
-  simp only [this]
-
-end W
+/-- What the repaired query returns in the saturated case, on the former divergence witness
+(`A = [[F,F],[T,T]]`, `batch_size = 1`, inner pick = sample 0 which has no annotator; utilities and noise
+over `Nat`): `nAs = [0]`, and still one pair — the available pair `(1, 0)` (flat position 2) of the
+other sample, with the utilities NaN on the unavailable row.  So `k = batch_size` also here. -/
+theorem queryAnnotators_saturated_witness :
+    (queryAnnotators (α := Nat) (β := Nat) 0 id 1 2 1 [[false, false], [true, true]]
+      [[some 5, some 3]] [0] [0, 0, 0, 0] [1] [[1, 1, 1, 1]]).toOption =
+      some ([0], [(2, [none, none, some 1, some 1])]) := by decide
 
 section Wrapper
 variable {α : Type} [Field α] [LinearOrder α] [IsStrictOrderedRing α]
@@ -149,7 +185,7 @@ rectangular; the inner strategy kept its contract (`sIdx` distinct positions, ro
 has a number at `sIdx[t]`); annotator utilities lie in `[0, 1)` (what `rand` / the `A_perf`
 normalisation produce); `n_annotators_per_sample ≥ 1`; every chosen sample has an available annotator
 and together they have at least `batch_size` of them (`nToAssign_precondition_holds`; false exactly in
-the divergence case); noise is positive.  Then the query returns `b` steps whose flat picks are
+the saturated case, see `nToAssign_saturated`); noise is positive.  Then the query returns `b` steps whose flat picks are
 pairwise distinct and available; the utilities matrix of step `k` has `A.length * m` entries, is NaN at
 every unavailable pair and at the picks of the steps before `k` (one-directional, as C07 states) and a
 number at the pick of step `k`; the samples are served in the inner strategy's order, sample
@@ -188,8 +224,12 @@ theorem queryAnnotators_valid
   generalize hnm : sIdx.map (fun s => countRow (A.getD s [])) = nmax at *
   have hnl : nmax.length = sIdx.length := by rw [← hnm]; simp
   have hinit := assignInit_le nmax pref (by omega)
-  obtain ⟨nAs, hnAs, n1, n2, n3, n4⟩ :=
-    assignIter_some fuel b nmax (assignInit nmax pref) hinit hreach (by omega)
+  obtain ⟨nAs, hnAs, n1', n2, n3, n4⟩ :=
+    assignIter_some fuel b nmax (assignInit nmax pref) hinit (by omega)
+  have n1 : b ≤ nAs.sum := by
+    rcases n1' with h | h
+    · exact h
+    · rw [h]; exact hreach
   have hlen : nAs.length = sIdx.length := by rw [LeL.length n2, hnl]
   have hnmax : ∀ t, t < sIdx.length → nmax.getD t 0 = countRow (A.getD (sIdx.getD t 0) []) := by
     intro t ht
@@ -247,6 +287,184 @@ theorem translated_pairs_distinct (m : Nat) (hm : 0 < m) (A : List (List Bool))
 
 end Wrapper
 
+section E2E
+variable {α : Type} [Field α] [LinearOrder α] [IsStrictOrderedRing α]
+variable {β : Type} [LinearOrder β] [Zero β]
+
+/-- **End to end: everything `SingleAnnotatorWrapper.query` does around the inner strategy's call.**
+`(mapping, A)` is the result of `_transform_cand_annot`, `b` the batch size clipped to the number of
+available pairs (`batch_clipped_to_available_pairs`).  The inner strategy's contract is stated in its
+own index space (distinct picks, `min(b, n_selectable)` of them, each a selectable candidate with a
+number in its utilities row); the remaining preconditions are those of `queryAnnotators_valid`.  Then
+the query succeeds with `b` pairs in the index space of the result (through `mapping`), pairwise
+distinct, each available (`outAvail`, linked to the arguments by `transformCandAnnot_spec`), the
+samples in the inner strategy's order (`expand nAs innerPicks`), and `b` utility matrices that are NaN at
+every unavailable position and at every pair selected in an earlier step. -/
+theorem wrapperQuery_valid
+    (ninf : α) (cast : Nat → α) (hcast : ∀ a b : Nat, a < b → cast a + 1 ≤ cast b)
+    (nS m : Nat) (hm : 0 < m) (unl : List (List Bool)) (cand : Cand) (annot : Annot) (bReq : Nat)
+    (pref : Pref) (innerPicks : List Nat) (innerU : List (List (Option α))) (au : List α)
+    (noises : List (List β)) (mapping : Option (List Nat)) (A : List (List Bool)) (b : Nat)
+    (htr : transformCandAnnot nS m unl cand annot = (mapping, A))
+    (hb : b = clipBatch bReq (nCandidatePairs nS m unl cand annot))
+    (hrect : ∀ r ∈ A, r.length = m)
+    (hmp : ∀ mp, mapping = some mp → mp.Nodup ∧ mp.length = A.length)
+    (hk : innerPicks.length = min b A.length) (hU : innerU.length = innerPicks.length)
+    (hnd : innerPicks.Nodup)
+    (hin : ∀ (t : Nat) (row : List (Option α)) (s : Nat), innerU[t]? = some row → innerPicks[t]? = some s →
+      (∃ v, row.getD s none = some v) ∧
+      (match mapping with
+       | none => row.length = A.length ∧ s < A.length
+       | some mp => s ∈ mp))
+    (hau : au.length = A.length * m) (hau01 : ∀ a ∈ au, 0 ≤ a ∧ a < 1)
+    (hpref : ∀ x ∈ prefVector pref (min b A.length), 1 ≤ x)
+    (hplen : (prefVector pref (min b A.length)).length = min b A.length)
+    (havail1 : ∀ s ∈ innerPicks, 1 ≤ nmaxAt A (selPos mapping s))
+    (hreach : b ≤ (innerPicks.map (fun s => nmaxAt A (selPos mapping s))).sum)
+    (hnoise : b ≤ noises.length) (hpos : PosNoise (A.length * m) noises) :
+    ∃ res, wrapperQuery ninf cast nS m unl cand annot bReq pref innerPicks innerU au noises = .ok res ∧
+      res.batch = b ∧ res.mapping = mapping ∧ res.A = A ∧
+      res.picks.length = b ∧ res.picks.Nodup ∧
+      (∀ pr ∈ res.picks, pr.2 < m ∧ outAvail m mapping A (outPos m pr) = true) ∧
+      res.picks.map Prod.fst = (expand res.nAs innerPicks).take b ∧
+      res.rows.length = b ∧
+      (∀ k, ∀ hk : k < res.rows.length, ∀ q,
+        (outAvail m mapping A q = false ∨ q ∈ (res.picks.take k).map (outPos m)) →
+          res.rows[k].getD q none = none) := by
+  -- the inner strategy's result over the selectable candidates
+  obtain ⟨candRows, sIdx, hcr, hsi, hT, hinner, hnodup, hback, hnm⟩ :
+      ∃ candRows sIdx,
+        candRows = (match mapping with | none => innerU | some mp => innerU.map (gatherRow mp)) ∧
+        sIdx = (match mapping with | none => innerPicks | some mp => innerPicks.map (posIn mp)) ∧
+        candRows.length = sIdx.length ∧
+        (∀ (t : Nat) (row : List (Option α)) (s : Nat), candRows[t]? = some row → sIdx[t]? = some s →
+          row.length = A.length ∧ s < A.length ∧ ∃ v, row[s]? = some (some v)) ∧
+        sIdx.Nodup ∧
+        (sIdx.map (fun i => (translatePick m mapping (i * m)).1) = innerPicks) ∧
+        sIdx.map (fun s => countRow (A.getD s [])) = innerPicks.map (fun s => nmaxAt A (selPos mapping s)) := by
+    cases mapping with
+    | none =>
+      refine ⟨innerU, innerPicks, rfl, rfl, hU, ?_, hnd, ?_, ?_⟩
+      · intro t row s h1 h2
+        obtain ⟨⟨v, hv⟩, h3⟩ := hin t row s h1 h2
+        exact ⟨h3.1, h3.2, v, getD_some_getElem? row s v hv⟩
+      · have : (fun i => (translatePick m none (i * m)).1) = id := by
+          funext i; simp [translatePick, Nat.mul_div_cancel _ hm]
+        rw [this]; simp
+      · rfl
+    | some mp =>
+      obtain ⟨hmnd, hml⟩ := hmp mp rfl
+      have hmem : ∀ s ∈ innerPicks, s ∈ mp := by
+        intro s hs
+        obtain ⟨t, ht, rfl⟩ := List.getElem_of_mem hs
+        have h1 : innerU[t]? = some innerU[t] := List.getElem?_eq_getElem (by omega)
+        exact (hin t _ _ h1 (List.getElem?_eq_getElem ht)).2
+      refine ⟨_, _, rfl, rfl, by simp [hU], ?_, ?_, ?_, ?_⟩
+      · intro t row' s' h1 h2
+        rw [List.getElem?_map] at h1 h2
+        cases hr : innerU[t]? with
+        | none => rw [hr] at h1; simp at h1
+        | some row =>
+          cases hs : innerPicks[t]? with
+          | none => rw [hs] at h2; simp at h2
+          | some s =>
+            rw [hr] at h1; rw [hs] at h2
+            simp only [Option.map_some, Option.some.injEq] at h1 h2
+            subst h1; subst h2
+            obtain ⟨⟨v, hv⟩, h3⟩ := hin t row s hr hs
+            have hl : posIn mp s < mp.length := List.idxOf_lt_length_of_mem h3
+            refine ⟨by simp [gatherRow, hml], by omega, v, ?_⟩
+            rw [gatherRow_get mp row s h3, hv]
+      · apply nodup_map_of_inj_on _ _ _ hnd
+        intro x hx y hy e
+        rw [← posIn_getD mp x (hmem x hx), ← posIn_getD mp y (hmem y hy), e]
+      · rw [List.map_map]
+        have : ∀ s ∈ innerPicks, ((fun i => (translatePick m (some mp) (i * m)).1) ∘ posIn mp) s = s := by
+          intro s hs
+          simp only [Function.comp, translatePick, Nat.mul_div_cancel _ hm]
+          exact posIn_getD mp s (hmem s hs)
+        rw [List.map_congr_left this]; simp
+      · rw [List.map_map]; rfl
+  have hfl := flatten_length A m hrect
+  have hplen' : (prefVector pref (min b A.length)).length = sIdx.length := by
+    rw [hplen, ← hk]
+    cases mapping <;> simp [hsi]
+  have hsilt : ∀ s ∈ sIdx, s < A.length := by
+    intro s hs
+    obtain ⟨t, ht, rfl⟩ := List.getElem_of_mem hs
+    have h1 : candRows[t]? = some candRows[t] := List.getElem?_eq_getElem (by omega)
+    exact (hinner t _ _ h1 (List.getElem?_eq_getElem ht)).2.1
+  obtain ⟨nAs, out, hq, o1, -, -, -, o5, o6, o7, o8, -, o10⟩ :=
+    queryAnnotators_valid ninf cast hcast ((sIdx.map (fun s => countRow (A.getD s []))).sum) m b hm A hrect
+      candRows sIdx au (prefVector pref (min b A.length)) noises hT hplen' hinner hnodup hau hau01 hpref
+      (by
+        intro s hs
+        have : countRow (A.getD s []) ∈ sIdx.map (fun s => countRow (A.getD s [])) := List.mem_map.mpr ⟨s, hs, rfl⟩
+        rw [hnm] at this
+        obtain ⟨x, hx, hxe⟩ := List.mem_map.mp this
+        rw [← hxe]; exact havail1 x hx)
+      (by rw [hnm]; exact hreach) (Nat.le_refl _) hnoise hpos
+  obtain ⟨t1, t2⟩ := translate_spec nS m hm A hrect mapping hmp out (fun r hr => (o6 r hr).1) o8
+  have t0 := translated_pairs_distinct m hm A hrect mapping hmp (out.map Prod.fst) o5
+    (by intro p hp; obtain ⟨r, hr, rfl⟩ := List.mem_map.mp hp; exact (o6 r hr).1)
+  have hany : (sIdx.any (fun s => decide (A.length ≤ s))) = false := by
+    rw [List.any_eq_false]
+    intro s hs
+    have := hsilt s hs
+    simp; omega
+  refine ⟨{ batch := b, mapping := mapping, A := A, pref := prefVector pref (min b A.length), nAs := nAs,
+            picks := out.map (fun r => translatePick m mapping r.1),
+            rows := out.map (fun r => translateRow nS m mapping r.2) }, ?_, rfl, rfl, rfl, by simp [o1], ?_, ?_, ?_,
+          by simp [o1], ?_⟩
+  · unfold wrapperQuery
+    simp only [htr, ← hb]
+    cases mapping with
+    | none =>
+      simp only at hcr hsi
+      subst hcr; subst hsi
+      simp only [hany, Bool.false_eq_true, if_false, hq]
+    | some mp =>
+      simp only at hcr hsi
+      subst hcr; subst hsi
+      simp only [hany, Bool.false_eq_true, if_false, hq]
+  · rw [List.map_map] at t0; exact t0
+  · intro pr hpr
+    simp only [List.mem_map] at hpr
+    obtain ⟨r, hr, rfl⟩ := hpr
+    exact t1 r hr
+  · -- samples in the inner strategy's order
+    have e1 : (out.map (fun r => translatePick m mapping r.1)).map Prod.fst =
+        (out.map (fun r => r.1 / m)).map (fun i => (translatePick m mapping (i * m)).1) := by
+      simp only [List.map_map]
+      apply List.map_congr_left
+      intro r _
+      cases mapping <;> simp [translatePick, Nat.mul_div_cancel _ hm]
+    simp only
+    rw [e1, o10, List.map_take, expand_map, hback]
+  · intro k hk q hq
+    simp only [List.length_map] at hk
+    simp only [List.getElem_map]
+    apply t2 k hk q
+    rcases hq with hq | hq
+    · exact Or.inl hq
+    · right
+      simp only [List.map_take, List.map_map] at hq ⊢
+      exact hq
+
+end E2E
+
+/-- **`annotWrapper_sample_order` (used by C20): the wrapper serves the samples in the order in which the
+wrapped strategy ranked them.**  Whenever the translated sample column of the result is
+`(expand nAs innerPicks).take b` (conclusion of `wrapperQuery_valid`), a sample that the inner strategy
+picked later never precedes one it picked earlier, and all pairs of one sample are consecutive. -/
+theorem annotWrapper_sample_order (innerPicks nAs : List Nat) (b : Nat) (hnd : innerPicks.Nodup)
+    (samples : List Nat) (h : samples = (expand nAs innerPicks).take b) :
+    samples.Pairwise (fun x y => innerPicks.idxOf x ≤ innerPicks.idxOf y) ∧ ∀ s ∈ samples, s ∈ innerPicks := by
+  subst h
+  refine ⟨(expand_pairwise nAs innerPicks hnd).sublist (List.take_sublist _ _), ?_⟩
+  intro s hs
+  exact mem_expand nAs innerPicks s (List.mem_of_mem_take hs)
+
 section IET
 variable {α : Type} [LinearOrder α] [Zero α] [Add α]
 variable {β : Type} [LinearOrder β] [Zero β]
@@ -297,6 +515,20 @@ theorem iet_valid (isInf : α → Bool) (nS m : Nat) (hm : 0 < m) (unl : List (L
 
 end IET
 
+/-- On IntervalEstimationThreshold's documented domain (every candidate sample has all annotators
+available; utilities are numbers) `#selectable = n_candidates * n_annotators = #available pairs`, so
+`iet_valid` gives `k = min(batch_size, #available pairs)`.  Outside it only the pairs of fully
+available samples are selectable (documented restriction of the strategy). -/
+theorem iet_selectable_documented {α : Type} (nS m : Nat) (hm : 0 < m) (unl : List (List Bool)) (cand : Cand)
+    (annot : Annot) (U : List (Option α))
+    (hmp : ∀ mp, (transformCandAnnot nS m unl cand annot).1 = some mp →
+      mp.Nodup ∧ (∀ s ∈ mp, s < nS) ∧ mp.length = (transformCandAnnot nS m unl cand annot).2.length)
+    (hfull : ∀ r ∈ (transformCandAnnot nS m unl cand annot).2, allTrue r = true)
+    (hU : ∀ p, p < (transformCandAnnot nS m unl cand annot).2.length * m → (U.getD p none).isSome = true) :
+    countSome (ietUtilities nS m unl cand annot U) =
+      (transformCandAnnot nS m unl cand annot).2.length * m :=
+  ietUtilities_countSome_full nS m hm unl cand annot U hmp hfull hU
+
 /-! ## Non-vacuity: concrete instances meet the hypotheses -/
 
 example : ((transformCandAnnot 3 2 [[true, false], [false, false], [true, true]] .all (.idx [1])).2.getD 2 []).getD 1 false
@@ -327,5 +559,27 @@ example {α : Type} [Field α] [LinearOrder α] [IsStrictOrderedRing α] :
     (by simp) rfl (by simp) (by simp) (by simp [countRow]) (by simp [countRow]) (by simp [countRow]) (by simp)
     (by intro nz h; simp at h; subst h; simp)
   exact ⟨nAs, out, h, hl⟩
+
+/-- the hypotheses of `wrapperQuery_valid` are satisfiable: two samples, two annotators, label matrix with
+three missing entries, `candidates = annotators = None`, batch of two, inner picks 1 then 0 -/
+example {α : Type} [Field α] [LinearOrder α] [IsStrictOrderedRing α] :
+    ∃ res, wrapperQuery (β := Nat) (0 : α) (fun n => (n : α)) 2 2 [[true, true], [true, false]] .all .all 2
+      (.int 1) [1, 0] [[some 0, some 1], [some 0, none]] [0, 0, 0, 0] [[1, 1, 1, 1], [1, 1, 1, 1]] = .ok res ∧
+      res.picks.length = 2 ∧ res.picks.Nodup := by
+  obtain ⟨res, h, -, -, -, hl, hn, -⟩ := wrapperQuery_valid (β := Nat) (0 : α) (fun n => (n : α))
+    (by intro a b h; exact_mod_cast h) 2 2 (by omega) [[true, true], [true, false]] .all .all 2 (.int 1) [1, 0]
+    [[some 0, some 1], [some 0, none]] [0, 0, 0, 0] [[1, 1, 1, 1], [1, 1, 1, 1]]
+    (some [0, 1]) [[true, true], [true, false]] 2 (by decide) (by decide) (by simp)
+    (by intro mp h; injection h with h; subst h; simp) (by simp) rfl (by simp)
+    (by
+      intro t row s h1 h2
+      match t with
+      | 0 => simp at h1 h2; subst h1; subst h2; simp
+      | 1 => simp at h1 h2; subst h1; subst h2; simp
+      | t + 2 => simp at h1)
+    rfl (by simp) (by simp [prefVector]) (by simp [prefVector])
+    (by intro s hs; simp at hs; rcases hs with rfl | rfl <;> decide)
+    (by decide) (by simp) (by intro nz h; simp at h; subst h; simp)
+  exact ⟨res, h, hl, hn⟩
 
 end Ska.C07
